@@ -122,6 +122,7 @@ def gen_function(contract, contracts, known=()):
             interp.path = path
             path.interp = interp
             interp.depth = 0
+            interp.call_log = []
             interp.spec = 0
             V.reset_fresh()
             bound = {n: s.fresh(n, path) for n, s in specs.items()}
@@ -256,6 +257,16 @@ def build_replay(pid, contract, ob_name, meta, model, verdict_raw):
     else:
         call = f"_mod.{qn}(**{{k: v for k, v in args.items() if not k.startswith('_')}})"
     kind = meta.get("kind")
+    if contract.replay:
+        src = contract.replay(ob_name, meta, model)
+        with open(path, "w") as f:
+            f.write("#!/verif/.venv/bin/python\n# replay of a refuted obligation on the real code (public entry point)\n"
+                    f"# property   : {pid}\n# obligation : {ob_name}\n# clause     : {meta.get('clause', '')}\n"
+                    f"import sys\nsys.path.insert(0, {ROOT!r})\nmodel = {({k: str(v) for k, v in model.items()})!r}\n"
+                    + src + "\n\n# solver output (truncated):\n"
+                    + "\n".join("# " + ln for ln in (verdict_raw or "").splitlines()[:60]) + "\n")
+        os.chmod(path, 0o755)
+        return path
     lines = [
         "#!/verif/.venv/bin/python",
         f"# replay of a refuted obligation on the real code",
